@@ -1,12 +1,13 @@
 #!/bin/bash
 # usage: tools/seed_eval.sh <Cnn> [other property ids to run as well]
+#        SEED_SRC=/tmp/seed2 SEED_DST=/verif/seeded2 SKIP_SUITE=1 tools/seed_eval.sh <Cnn>   (second round)
 # Copies a seeded change from its scratch worktree into /verif/seeded/<id>/, confirms that the
 # existing suite passes with it (in the scratch worktree), applies it to /repo, runs the check(s),
 # and restores /repo. /repo is never committed to.
 set -u
 id=$1; shift
-wt=/tmp/seed/$id
-dst=/verif/seeded/$id
+wt=${SEED_SRC:-/tmp/seed}/$id
+dst=${SEED_DST:-/verif/seeded}/$id
 [ -f $wt/_seeded/patch.diff ] || { echo "no patch for $id"; exit 2; }
 mkdir -p $dst
 cp $wt/_seeded/patch.diff $wt/_seeded/meta.json $dst/ 2>/dev/null
